@@ -358,6 +358,7 @@ type pingCase struct {
 	Cfg
 	DevAddr uint32 `json:"devaddr"`
 	Beacon  uint64 `json:"beacon_time_s"`
+	Nanos   uint32 `json:"beacon_time_ns,omitempty"` // 0..999999999 on top of the seconds: a time.Duration is finer than a second
 }
 
 var hopping = []string{"US915", "AU915", "CN470"}
@@ -391,6 +392,15 @@ func genPing(t *rapid.T) pingCase {
 		sec = 1 << 32
 	}
 	c.Beacon = uint64(sec)
+	// the caller's beacon time is a time.Duration: the period number is floor(t / 128 s) for sub-second parts too
+	switch rapid.IntRange(0, 7).Draw(t, "subsecond") {
+	case 0:
+		c.Nanos = 999999999
+	case 1:
+		c.Nanos = uint32(rapid.IntRange(999999000, 999999999).Draw(t, "lastmicro"))
+	case 2:
+		c.Nanos = uint32(rapid.IntRange(1, 999999998).Draw(t, "nanos"))
+	}
 	return c
 }
 
@@ -401,13 +411,13 @@ func checkPing(c pingCase) evid.Outcome {
 	}
 	var a lorawan.DevAddr
 	binary.BigEndian.PutUint32(a[:], c.DevAddr)
-	got, err := o.b.GetPingSlotFrequency(a, time.Duration(c.Beacon)*time.Second)
+	got, err := o.b.GetPingSlotFrequency(a, time.Duration(c.Beacon)*time.Second+time.Duration(c.Nanos))
 	want := o.rules.PingSlotFrequency(c.DevAddr, c.Beacon)
 	if err != nil {
-		return evid.Fail("%s: GetPingSlotFrequency(%08x, %d s): %v; regional rule gives %d", c.Cfg, c.DevAddr, c.Beacon, err, want)
+		return evid.Fail("%s: GetPingSlotFrequency(%08x, %d s + %d ns): %v; regional rule gives %d", c.Cfg, c.DevAddr, c.Beacon, c.Nanos, err, want)
 	}
 	if got != want {
-		return evid.Fail("%s: GetPingSlotFrequency(DevAddr %08x, beacon time %d s)=%d, regional rule gives %d (channel (DevAddr + floor(t/128)) mod 8 = %d)", c.Cfg, c.DevAddr, c.Beacon, got, want, ref.PingSlotChannel(c.DevAddr, c.Beacon))
+		return evid.Fail("%s: GetPingSlotFrequency(DevAddr %08x, beacon time %d s + %d ns)=%d, regional rule gives %d (channel (DevAddr + floor(t/128)) mod 8 = %d)", c.Cfg, c.DevAddr, c.Beacon, c.Nanos, got, want, ref.PingSlotChannel(c.DevAddr, c.Beacon))
 	}
 	if o.rules.PingSlotFixed != 0 {
 		return evid.Outcome{Class: c.Band + "/fixed"}
@@ -423,6 +433,7 @@ func checkPing(c pingCase) evid.Outcome {
 	key = append(key, c.Band...)
 	key = binary.BigEndian.AppendUint32(key, c.DevAddr)
 	key = binary.BigEndian.AppendUint64(key, c.Beacon)
+	key = binary.BigEndian.AppendUint32(key, c.Nanos)
 	return evid.Outcome{NonTrivial: true, Class: fmt.Sprintf("%s/ch%d", c.Band, ref.PingSlotChannel(c.DevAddr, c.Beacon)), Key: key}
 }
 
@@ -503,6 +514,6 @@ func TestProp(t *testing.T) {
 		func(emit func(cfgCase)) { allCfgs(func(cfg Cfg) { emit(cfgCase{cfg}) }) }, checkDefaults)
 
 	evid.Rapid(r, t, "ping-slot",
-		"random configuration (70% of the cases one of the hopping regions US915/AU915/CN470) x DevAddr (uniform 32 bits) x beacon time = 128 s x period (uniform 0..2^25, edges 0 / 2^25 / small) + {-1,0,+1} s clipped to 0..2^32 s. Oracle: bandrules (fixed frequency, or base + step x ((DevAddr + floor(t/128)) mod 8)); a hopping result must be a downlink channel frequency. Non-trivial: hopping region.",
+		"random configuration (70% of the cases one of the hopping regions US915/AU915/CN470) x DevAddr (uniform 32 bits) x beacon time = 128 s x period (uniform 0..2^25, edges 0 / 2^25 / small) + {-1,0,+1} s clipped to 0..2^32 s, three times in eight plus a sub-second part (the last nanosecond, the last microsecond, any) - the argument is a time.Duration and the period number its floor. Oracle: bandrules (fixed frequency, or base + step x ((DevAddr + floor(t/128)) mod 8)); a hopping result must be a downlink channel frequency. Non-trivial: hopping region.",
 		160000, 3200000, genPing, checkPing)
 }
